@@ -514,14 +514,18 @@ def r89(repo, ctx, index, states):
         for o in outs:
             seen_backup = False
             depth_in_backup = 0
+            late_here = None          # a shape field written after the LAST snapshot of this path
             for e in o.events:
                 if e[0] == 'call' and len(e) >= 2 and e[1] == 'createBackup':
                     seen_backup, called = True, True
                     depth_in_backup += 1
+                    late_here = None
                 elif e[0] == 'ret' and e[1] == 'createBackup':
                     depth_in_backup = max(0, depth_in_backup - 1)
-                elif e[0] == 'write' and e[1] in SHAPE and seen_backup and depth_in_backup == 0 and late is None:
-                    late = e[1]
+                elif e[0] == 'write' and e[1] in SHAPE and seen_backup and depth_in_backup == 0 and late_here is None:
+                    late_here = e[1]
+            if late_here is not None and late is None:
+                late = late_here
         if not called or name == 'createBackup':
             continue
         m += 1
